@@ -42,6 +42,33 @@ fn decode_via_compiler(lit: &str) -> (Option<String>, Option<String>, Option<Str
     (arg, dflt, desc)
 }
 
+/// audit G2: the literal at every place of a document that stores a string (p09::STRING_SITES: descriptions of every
+/// definition kind, default values, directive and field arguments, nested in lists / input objects / selection sets)
+fn all_sites_case(ctx: &mut Ctx, lit: &str, want: &Option<String>) {
+    use apollo_compiler::ast;
+    let src = crate::p09::STRING_SITES.replace("{L}", &format!(" {lit} "));
+    let sites = crate::p09::STRING_SITES.matches("{L}").count();
+    match catch(|| ast::Document::parse(src.clone(), "sites.graphql")) {
+        Err(m) => ctx.fail("string-decode-panic", lit, &format!("at the string sites of a document: {m}")),
+        Ok(Err(e)) => ctx.fail("compiler-stores-other-string", lit, &format!("a document with this literal at every string site does not parse: {}", e.errors.to_string().lines().next().unwrap_or(""))),
+        Ok(Ok(mut doc)) => {
+            let mut got: Vec<Option<String>> = vec![];
+            crate::p09::walk_strings(&mut doc, &mut |slot| match slot {
+                crate::p09::Slot::Desc(d) => got.push(d.as_ref().map(|x| x.to_string())),
+                crate::p09::Slot::Val(v) => got.push(v.as_str().map(|x| x.to_string())),
+            });
+            let wrong: Vec<usize> = (0..got.len()).filter(|&i| &got[i] != want).collect();
+            if got.len() != sites || !wrong.is_empty() {
+                ctx.fail("compiler-stores-other-string", lit, &format!("{sites} string sites, {} stored, sites {:?} differ from the spec value {want:?}: {:?}", got.len(), wrong.iter().take(5).collect::<Vec<_>>(), wrong.first().map(|&i| &got[i])));
+            }
+            ctx.stat("all_sites_checked");
+        }
+    }
+    // the same document through the Lean model of ast/from_cst.rs (existing stream `c08.fromcst`: AST dump with every
+    // description and string value + name locations) — the model side of "stored by the compiler"
+    if ctx.n_cases % 4 == 0 { crate::pfromcst::case(ctx, &src); ctx.stat("all_sites_fromcst_model_cases"); }
+}
+
 pub fn lit_case(ctx: &mut Ctx, lit: &str) {
     if !lexes_as_one_string(lit) { ctx.stat("not_a_string_token"); return; }
     let got = decode_via_cst(lit);
@@ -63,13 +90,71 @@ pub fn lit_case(ctx: &mut Ctx, lit: &str) {
             if v != want { ctx.fail("compiler-stores-other-string", &format!("{name}: {lit}"), &format!("stored {v:?}, spec {want:?}")); }
         }
     }
+    if ctx.n_cases % 199 == 0 && lit.len() < 200 { all_sites_case(ctx, lit, &want); }
+}
+
+/// audit G2: systematic families (every escape value, every character in every role, line structure × terminators)
+fn audit_families(ctx: &mut Ctx) {
+    // 1. EVERY four-digit escape (upper case); lower/mixed case and multi-byte neighbours at the UTF-8 length boundaries
+    let mut n = 0u64;
+    for cp in 0..=0xFFFFu32 {
+        lit_case(ctx, &format!("\"\\u{cp:04X}\"")); n += 1;
+        if cp % 0x101 == 0 || [0, 1, 0x7F, 0x80, 0x7FF, 0x800, 0xD7FF, 0xE000, 0xFFFD, 0xFFFE, 0xFFFF, 0xABCD, 0xFEDC].contains(&cp) {
+            let up = format!("{cp:04X}");
+            let mixed: String = up.chars().enumerate().map(|(i, c)| if i % 2 == 0 { c.to_ascii_lowercase() } else { c }).collect();
+            for s in [format!("\"\\u{cp:04x}\""), format!("\"\\u{mixed}\""), format!("\"é\\u{up}😀\""), format!("\"\\u{up}\\u{up}\""), format!("\"\\\\u{up}\""), format!("\"\\u{up}0\"")] { lit_case(ctx, &s); n += 1; }
+        }
+    }
+    ctx.stat_n("unicode_escape_literals", n);
+    // 2. every swept character: raw and after a backslash in a quoted string; in a block string as content, as possible
+    //    indentation, as a possibly blank line, next to each kind of line terminator
+    let mut n = 0u64;
+    for c in crate::p03::sweep_chars() {
+        for s in [format!("\"{c}\""), format!("\"a{c}b\""), format!("\"\\{c}\""), format!("\"\\{c}{c}\""), format!("\"\"\"{c}\"\"\""), format!("\"\"\"\n {c}\n  x\"\"\""), format!("\"\"\"\n  x\n {c}\"\"\""),
+            format!("\"\"\"{c}\n x\"\"\""), format!("\"\"\" x\n{c}\"\"\""), format!("\"\"\"\n  x\n  {c}\n\"\"\""), format!("\"\"\"\n{c}\n  x\"\"\""), format!("\"\"\"\n {c}x\n {c}y\"\"\""), format!("\"\"\"a{c} b{c}  c\"\"\""),
+            format!("\"\"\"a\r{c} b\r\n{c}  c\"\"\""), format!("\"\"\"\\{c}\"\"\""), format!("\"\"\"\n  \\\"\"\"{c}\n  {c}\\\"\"\"\"\"\"")] { lit_case(ctx, &s); n += 1; }
+    }
+    ctx.stat_n("sweep_char_literals", n);
+    // 3. line-structured block strings: every combination of lines × every combination of the three line terminators
+    let lines = ["", " ", "  ", "\t", "x", " x", "  x", "\tx", " \tx", "   x", "x ", "é", " é", "\\\"\"\"", " \\\"\"\"x\\\"\"\"", "\u{3000}x"];
+    let terms = ["\n", "\r", "\r\n"];
+    let mut n = 0u64;
+    let max_mixed = if ctx.thorough { 4 } else { 3 };
+    for k in 1..=max_mixed {
+        let mut idx = vec![0usize; k];
+        'outer: loop {
+            for tc in 0..3usize.pow(k as u32 - 1) {
+                let mut s = String::from(lines[idx[0]]);
+                let mut t = tc;
+                for i in 1..k { s.push_str(terms[t % 3]); t /= 3; s.push_str(lines[idx[i]]); }
+                lit_case(ctx, &format!("\"\"\"{s}\"\"\"")); n += 1;
+            }
+            let mut p = k;
+            loop { if p == 0 { break 'outer; } p -= 1; if idx[p] + 1 < lines.len() { idx[p] += 1; for j in p + 1..k { idx[j] = 0; } break; } }
+        }
+    }
+    // longer: four and five lines over fewer lines, one terminator kind per string
+    let few = ["", " ", "  ", "x", " x", "  x", "\tx", "   "];
+    for (k, m) in [(4usize, 8usize), (5, 6)] {
+        if ctx.thorough && k == 4 { continue; }
+        let mut idx = vec![0usize; k];
+        'outer2: loop {
+            for t in terms { let s = idx.iter().map(|&i| few[i]).collect::<Vec<_>>().join(t); lit_case(ctx, &format!("\"\"\"{s}\"\"\"")); n += 1; }
+            let mut p = k;
+            loop { if p == 0 { break 'outer2; } p -= 1; if idx[p] + 1 < m { idx[p] += 1; for j in p + 1..k { idx[j] = 0; } break; } }
+        }
+    }
+    ctx.stat_n("line_structured_block_literals", n);
 }
 
 pub fn run(ctx: &mut Ctx) {
     for lit in ["\"\"", "\"a\\n\\u00e9\\\"\"", "\"\"\"\"\"\"", "\"\"\"\n  a\n   b\n  \"\"\"", "\"\"\"a\\\"\"\"b\"\"\"", "\"\"\" \t\n\r\n x\r y \"\"\"", "\"\u{feff}\"", "\"\"\"\n\té\n\t\tz\"\"\""] {
         lit_case(ctx, lit);
+        let want = spec_string_value(lit);
+        all_sites_case(ctx, lit, &want);
     }
-    let q_alpha = ["\\", "\"", "n", "u", "0", "D", "8", "é", " ", "t", "x", "/"];
+    audit_families(ctx);
+    let q_alpha =["\\", "\"", "n", "u", "0", "D", "8", "é", " ", "t", "x", "/"];
     let mut v = vec![];
     for_all_strings(&q_alpha, if ctx.thorough { 6 } else { 5 }, |s| v.push(format!("\"{s}\"")));
     for l in &v { lit_case(ctx, l); }
